@@ -3,11 +3,15 @@
 usage: baseline_compare.py [-n WORKERS]   exit 0 iff every stable_pass test still passes."""
 import json, subprocess, sys, tempfile, xml.etree.ElementTree as ET, os
 n = sys.argv[sys.argv.index("-n") + 1] if "-n" in sys.argv else "8"
+repo = sys.argv[sys.argv.index("--repo") + 1] if "--repo" in sys.argv else "/repo"
 base = json.load(open("/root/.vp/BASELINE.json"))
 out = tempfile.mktemp(suffix=".xml", dir="/var/tmp")
 cmd = ["/venv/bin/python", "-m", "pytest", "-q", "-p", "no:cacheprovider", "--timeout=900",
        "--continue-on-collection-errors", "--junitxml=" + out, "-n", n]
-subprocess.run(cmd, cwd="/repo", stdout=subprocess.DEVNULL, stderr=subprocess.DEVNULL)
+env = dict(os.environ)
+if repo != "/repo":
+    env["PYTHONPATH"] = os.path.join(repo, "src")
+subprocess.run(cmd, cwd=repo, env=env, stdout=subprocess.DEVNULL, stderr=subprocess.DEVNULL)
 passed = set()
 for tc in ET.parse(out).getroot().iter("testcase"):
     if not any(ch.tag in ("failure", "error", "skipped") for ch in tc):
